@@ -164,6 +164,46 @@ def socket_level(chk, prefixes, types, depth, nrand, drops=True, faults=True):
         report(chk, v, scripts, prefixes, "random")
 
 
+def burst_scripts(rng, nper, scen0):
+    """C06, second half, on real sockets: one peer has a long backlog, the others a few messages, everything readable before the
+    receiver starts; half of the scenarios over pipes with hostile-but-legal readiness (late wake-ups of old wakers, self-waking
+    Pending).  The monitor counts how many deliveries of others each ready peer has to wait for."""
+    out, scen = [], scen0
+    for t in ("PULL", "SUB", "DEALER", "ROUTER", "XPUB"):
+        for i in range(nper):
+            scen += 1
+            n = rng.randint(2, 4)
+            ops = [{"op": "attach", "c": c, "ptype": S.PEER_OF[t][0]} for c in range(1, n + 1)]
+            k = {c: 0 for c in range(1, n + 1)}
+            def say(c):
+                k[c] += 1
+                tag = ("c%dm%d" % (c, k[c])).encode()
+                body = [b"\x01" + tag] if t == "XPUB" else [tag] if k[c] % 3 else [tag, b"", b"y" * 300]
+                return {"op": "psend", "c": c, "m": [S.hx(f) for f in body]}
+            busy = rng.randint(1, n)
+            hist = rng.randint(0, 40)
+            for _ in range(hist):                   # history: the busy peer alone, each message received at once
+                ops += [say(busy), {"op": "recv"}]
+            burst = rng.randint(30, 80)
+            for _ in range(burst):
+                ops.append(say(busy))
+            few = 0
+            for c in range(1, n + 1):
+                if c != busy:
+                    for _ in range(rng.randint(1, 4)):
+                        ops.append(say(c)); few += 1
+            if rng.random() < 0.5:
+                ops.append({"op": "settle"})
+            ops += [{"op": "recv"}] * (burst + few) + [{"op": "quiescent"}, {"op": "recv_drop"}]
+            sc = {"scen": scen, "sock": t, "ops": ops, "tag": "burst"}
+            if i % 2 == 0:
+                sc["jitter"] = 1 + rng.randrange(1 << 30)
+            else:
+                sc["nojitter"] = True
+            out.append(sc)
+    return out
+
+
 def flood(chk, prefixes, nper, clients, msgs):
     """uncontrolled schedules: raw TCP / IPC clients flood a real socket from their own tasks on the multi-threaded runtime;
     the recorded global order is validated against TraceDelivery like every other trace"""
